@@ -150,8 +150,12 @@ func genC06(r *Rng, tier string, idx int) *Plan {
 			p.Ops = append(p.Ops, Op{Kind: "auth", C: c, Args: []string{"AUTH", fmt.Sprintf("u%d", next), fmt.Sprintf("pw%d", next)}})
 			next++
 		case x < 93:
-			p.Ops = append(p.Ops, Op{Kind: "deluser", Args: []string{"ACL", "DELUSER", fmt.Sprintf("u%d", r.Intn(next))}})
-			if p.Profile == "race" {
+			du := r.Intn(next)
+			p.Ops = append(p.Ops, Op{Kind: "deluser", Args: []string{"ACL", "DELUSER", fmt.Sprintf("u%d", du)}})
+			if p.Profile == "race" && r.Bool() {
+				// a login as that very user on another connection races the deletion
+				p.Ops = append(p.Ops, Op{Kind: "auth", C: c, Args: []string{"AUTH", fmt.Sprintf("u%d", du), fmt.Sprintf("pw%d", du)}})
+			} else if p.Profile == "race" {
 				p.Ops = append(p.Ops, Op{C: c, Args: g.Cmd(r)})
 			}
 		default:
@@ -351,6 +355,10 @@ func runC06(t *testing.T, p *Plan) *Outcome {
 		s := NewSim()
 		s.install()
 		defer s.uninstall()
+		if p.Profile == "race" {
+			// the ACL user-list lock and the connection-table lock are scheduling points too
+			s.ParkLocks = map[string]bool{"acl.users": true, "conninfo": true}
+		}
 		cfg := BaseConfig
 		cfg.RequirePass = true
 		cfg.Password = "adminpw"
@@ -388,6 +396,72 @@ func runC06(t *testing.T, p *Plan) *Outcome {
 				break
 			}
 			if i == skip {
+				continue
+			}
+			if p.Profile == "race" && op.Kind == "deluser" && len(op.Args) >= 3 && i+1 < len(p.Ops) && p.Ops[i+1].Kind == "auth" && len(p.Ops[i+1].Args) == 3 && p.Ops[i+1].Args[1] == op.Args[2] && op.Args[2] != "default" {
+				// ---- ACL DELUSER u racing AUTH u pw on another connection: once both have completed nobody acts as u
+				nx := p.Ops[i+1]
+				c := nx.C % nconn
+				skip = i + 1
+				if who[c] != nil && who[c].name == op.Args[2] {
+					continue // already a session of u: covered by the sequential profile
+				}
+				was := who[c]
+				u := users[op.Args[2]]
+				couldLogin := u != nil && u.enabled && u.password == nx.Args[2]
+				var ares Result
+				cdone, adone := false, false
+				admin.Start(op.Args, func(r Result) { adone = true })
+				conns[c].Start(nx.Args, func(r Result) { ares, cdone = r, true })
+				for st := 0; st < 4000 && !(cdone && adone); st++ {
+					parked := s.ParkedTasks()
+					if len(parked) == 0 {
+						s.Settle()
+						if len(s.ParkedTasks()) == 0 {
+							break
+						}
+						continue
+					}
+					tk := parked[dice.Next(len(parked))]
+					s.noteChoice(len(parked), tk.Site)
+					s.Release(tk)
+				}
+				s.DrainAll(2000)
+				classes = append(classes, fmt.Sprintf("race:deluser||auth:%v", couldLogin))
+				if conns[c].SrvPanic != "" || admin.SrvPanic != "" {
+					fail("panic/race", conns[c].SrvPanic+admin.SrvPanic)
+					break
+				}
+				if !adone {
+					fail("race/edit-never-completed", fmt.Sprintf("step %d %q racing %q never returned", i, op.Args, nx.Args))
+					break
+				}
+				delete(users, op.Args[2])
+				for cc := range who {
+					if who[cc] != nil && who[cc].name == op.Args[2] {
+						conns[cc] = s.NewTCPClient(inst, fmt.Sprintf("c%d.%d", cc, i))
+						who[cc] = nil
+					}
+				}
+				accepted := cdone && !ares.IsError() && !ares.Closed && !ares.NoReply
+				if accepted && !couldLogin {
+					fail("auth/accepted", fmt.Sprintf("step %d %q racing %q was accepted although the credentials never matched", i, nx.Args, op.Args))
+					break
+				}
+				// whatever the order was: the user is gone now. Either the login came first and the session was cut
+				// with the user, or it came second and was refused.
+				w := conns[c].DoSync("ACL", "WHOAMI")
+				if !w.IsError() && !w.Closed && !w.NoReply && w.Reply.Text() == op.Args[2] {
+					fail("deleted-user-acts/race", fmt.Sprintf("step %d: %q raced %q (login answered %s); after both completed the connection still answers ACL WHOAMI with %q, a user that no longer exists", i, nx.Args, op.Args, trunc(ares.String(), 40), w.Reply.Text()))
+					break
+				}
+				if w.Closed || w.NoReply || accepted {
+					// the session was cut (or is in an unknown state after a login that won the race): start afresh
+					conns[c] = s.NewTCPClient(inst, fmt.Sprintf("c%d.%d", c, i))
+					who[c] = nil
+				} else {
+					who[c] = was
+				}
 				continue
 			}
 			if p.Profile == "race" && (op.Kind == "toggle" || op.Kind == "deluser") && i+1 < len(p.Ops) && p.Ops[i+1].Kind == "" && len(op.Args) >= 4-ifi(op.Kind == "deluser") {
